@@ -80,7 +80,7 @@ def mems_of(s, acc=None):
 
 
 def cases(tier, seed):
-    """(shape, binding-kinds) ; binding kind per identifier: 'c' constant, 'e' expression, 'i' other id, '-' absent;
+    """(shape, binding-kinds) ; binding kind per identifier: 'c' constant, 'e' expression, 'i' other id, 'q' conditional with constant arms, '-' absent;
     memory cells of the shape: 'c' / 'e' / '-'"""
     rnd = random.Random(seed)
     out = []
@@ -133,6 +133,9 @@ def cases(tier, seed):
             if ids:
                 kinds.append(tuple('ce-i'[(i) % 4] for i in range(len(ids))))
                 kinds.append(tuple('e-ci'[(i) % 4] for i in range(len(ids))))
+                if n == 32 or tier == 'thorough':
+                    kinds.append(tuple('qce-'[(i) % 4] for i in range(len(ids))))
+                    kinds.append(tuple('cq-e'[(i) % 4] for i in range(len(ids))))
             if tier == 'thorough' and len(ids) >= 2:
                 kinds.append(tuple('ic-e'[(i) % 4] for i in range(len(ids))))
                 kinds.append(tuple('-iec'[(i) % 4] for i in range(len(ids))))
@@ -177,6 +180,10 @@ def make_state(shape, kinds, memkind, consts_next):
             binds[key] = X.ExprOp('+', X.ExprId('u_' + nm, sz), X.ExprInt(UC[sz](SInt.var('bk_%s' % nm, 0, (1 << sz) - 1))))
         elif kd == 'i':
             binds[key] = X.ExprId('v_' + nm, sz)
+        elif kd == 'q' and sz in UC:
+            # a conditional with two symbolic constant arms (what a flag computed by an earlier test looks like, with arbitrary arms)
+            binds[key] = X.ExprCond(X.ExprId('w_' + nm, sz), X.ExprInt(UC[sz](SInt.var('q1_%s' % nm, 0, (1 << sz) - 1))),
+                                    X.ExprInt(UC[sz](SInt.var('q2_%s' % nm, 0, (1 << sz) - 1))))
     return binds
 
 
@@ -511,6 +518,7 @@ for (nm, sz), kd in zip(c06.ids_of(shape), kinds):
     if kd == 'c' and sz in UC: binds[key] = X.ExprInt(UC[sz](V.get('b_' + nm, 0)))
     elif kd == 'e' and sz in UC: binds[key] = X.ExprOp('+', X.ExprId('u_' + nm, sz), X.ExprInt(UC[sz](V.get('bk_' + nm, 0))))
     elif kd == 'i': binds[key] = X.ExprId('v_' + nm, sz)
+    elif kd == 'q' and sz in UC: binds[key] = X.ExprCond(X.ExprId('w_' + nm, sz), X.ExprInt(UC[sz](V.get('q1_' + nm, 0))), X.ExprInt(UC[sz](V.get('q2_' + nm, 0))))
 state = dict(binds); membinds = []
 def dec(f):
     s_ = z3.Solver(); s_.add(z3.Not(f)); return s_.check() == z3.unsat
